@@ -40,16 +40,17 @@ type Keys struct {
 
 // WaitAvailableKeys waits until an input key is either read from standard input,
 // or directly returns if the key stack still/already has available keys.
-func WaitAvailableKeys(keys *Keys, cfg *inputrc.Config) {
+// It returns io.EOF when the input has been closed and no key can be read anymore.
+func WaitAvailableKeys(keys *Keys, cfg *inputrc.Config) error {
 	keys.cfg = cfg
 
 	if len(keys.buf) > 0 && !keys.mustWait {
-		return
+		return nil
 	}
 
 	// The macro engine might have fed some keys
 	if len(keys.macroKeys) > 0 {
-		return
+		return nil
 	}
 
 	keys.mutex.Lock()
@@ -69,7 +70,7 @@ func WaitAvailableKeys(keys *Keys, cfg *inputrc.Config) {
 		// send by ourselves, because we pause reading.
 		keyBuf, err := keys.readInputFiltered()
 		if err != nil && errors.Is(err, io.EOF) {
-			return
+			return io.EOF
 		}
 
 		if len(keyBuf) == 0 {
@@ -93,7 +94,7 @@ func WaitAvailableKeys(keys *Keys, cfg *inputrc.Config) {
 			keys.mutex.RUnlock()
 		}
 
-		return
+		return nil
 	}
 }
 
@@ -225,7 +226,19 @@ func (k *Keys) ReadKey() (key rune, isAbort bool) {
 		buf := <-k.keysOnce
 		key = []rune(string(buf))[0]
 	default:
-		buf, _ := k.readInputFiltered()
+		var buf []byte
+
+		// A read can yield no keys at all (it failed, or only
+		// contained a cursor position report): keep reading.
+		for len(buf) == 0 {
+			var err error
+
+			// If the input is closed, abort the pending command.
+			if buf, err = k.readInputFiltered(); err != nil {
+				return inputrc.Esc, true
+			}
+		}
+
 		key = []rune(string(buf))[0]
 	}
 
